@@ -1,5 +1,182 @@
-"""Trace validation against Trace_Preproc.tla (stub; filled in below)."""
+"""
+Trace validation of finder.find executions against specs/Trace_Preproc.tla.
+
+The harness only REFORMATS: it splits the NDJSON event stream into one trace per
+finder.find run, attaches the program as CBI itself parsed it (node kinds and lines, by
+re-parsing each file with the language CBI logged), gives every event the same fields, and
+hands the batch to TLC.  Every judgement is made by the specification.
+"""
+import json
+import os
+import re
+import tempfile
+
+from . import core
+
+FIELDS = dict(e="", file="", kind="", line=0, name="", applied=False, active=False, result="none",
+              n1=0, n2=0, names=[], dnames=[])
+
+KIND = {
+    "CodeNode": "code", "IfNode": "if", "ElIfNode": "elif", "ElseNode": "else", "EndIfNode": "endif",
+    "DefineNode": "define", "UndefNode": "undef", "IncludeNode": "include",
+    "UnrecognizedDirectiveNode": "unknown",
+}
+
+_items_cache = {}
 
 
-def validate(ctx, traces):
-    ctx.cov["traces_recorded"] = len(traces)
+def items_of(path, lang):
+    """The node list of `path` in source order, as PreprocCore/Trace items."""
+    from codebasin import file_parser
+    key = (path, lang, os.path.getmtime(path))
+    if key in _items_cache:
+        return _items_cache[key]
+    tree = file_parser.FileParser(path).parse_file(summarize_only=True, language=lang)
+    out = []
+    for node in tree.walk():
+        tn = type(node).__name__
+        if tn == "FileNode":
+            continue
+        if tn == "PragmaNode":
+            k = "once" if (node.expr and str(node.expr[0]) == "once") else "other"
+        else:
+            k = KIND.get(tn, "other")
+        m = ""
+        if tn in ("DefineNode", "UndefNode"):
+            m = str(node.identifier.token)
+        out.append({"k": k, "line": int(node.start_line), "m": m, "v": "1"})
+    _items_cache[key] = out
+    return out
+
+
+def _dname(d):
+    m = re.match(r"\s*([A-Za-z_]\w*)", d)
+    return m.group(1) if m else d
+
+
+def norm_event(ev):
+    o = dict(FIELDS)
+    o["names"] = []
+    o["dnames"] = []
+    e = ev["ev"]
+    o["e"] = e
+    for k in ("file", "kind", "name"):
+        if k in ev and ev[k] is not None:
+            o[k] = str(ev[k])
+    if "line" in ev:
+        o["line"] = int(ev["line"] or 0)
+    if "applied" in ev:
+        o["applied"] = bool(ev["applied"])
+    if "active" in ev:
+        o["active"] = bool(ev["active"])
+    if e == "Resolve":
+        o["name"] = str(ev.get("spelling", ""))
+        o["result"] = "none" if ev.get("result") is None else os.path.realpath(ev["result"])
+    if e == "BeginTU":
+        o["n1"] = int(ev.get("nmemo", 0))
+        o["n2"] = int(ev.get("nonce", 0))
+        o["names"] = sorted(ev.get("defnames", []))
+        o["dnames"] = sorted({_dname(d) for d in ev.get("defines", [])})
+    if e in ("Enter", "Exit", "Once", "BeginTU", "EndTU") and o["file"]:
+        o["file"] = os.path.realpath(o["file"])
+    return o
+
+
+def split_runs(events):
+    """
+    One trace per finder.find call.  A run is a maximal sequence of Parsed events (the
+    up-front parse) followed by TU groups; a Parsed event seen while no TU is open and
+    after at least one EndTU starts a new run.
+    """
+    runs = []
+    cur = None
+    intu = False
+    seen_tu = False
+    for ev in events:
+        e = ev["ev"]
+        if cur is None or (e == "Parsed" and not intu and seen_tu):
+            cur = {"parsed": {}, "ev": []}
+            runs.append(cur)
+            seen_tu = False
+        if e == "Parsed":
+            cur["parsed"][ev["file"]] = ev.get("lang")
+            continue
+        if e == "BeginTU":
+            intu = True
+        if e == "EndTU":
+            intu = False
+            seen_tu = True
+        cur["ev"].append(ev)
+    return runs
+
+
+def load_trace_file(path, ident):
+    evs = []
+    with open(path) as f:
+        for line in f:
+            line = line.strip()
+            if line:
+                evs.append(json.loads(line))
+    out = []
+    for i, run in enumerate(split_runs(evs)):
+        if not run["ev"]:
+            continue
+        files = {}
+        ok = True
+        for fn, lang in run["parsed"].items():
+            if not os.path.exists(fn):
+                ok = False
+                break
+            files[os.path.realpath(fn)] = items_of(fn, lang)
+        if not ok:
+            continue
+        out.append({"id": f"{ident}#{i}", "files": files, "ev": [norm_event(e) for e in run["ev"]]})
+    return out
+
+
+def run_tlc(traces, tag="trace"):
+    """Returns (verdicts, tlc result).  traces: list of dicts from load_trace_file."""
+    os.makedirs(core.OUT, exist_ok=True)
+    fd, path = tempfile.mkstemp(prefix=f"{tag}-", suffix=".json", dir=core.OUT)
+    with os.fdopen(fd, "w") as f:
+        json.dump(traces, f)
+    try:
+        r = core.tlc("Trace_Preproc", "Trace_Preproc.cfg", workers=1, timeout=3000,
+                     env={"TRACE_FILE": path}, tag=tag, heap="6g")
+    finally:
+        os.unlink(path)
+    verdicts = [j for j in r.json if isinstance(j, dict) and "verdict" in j]
+    return verdicts, r
+
+
+def validate(ctx, trace_files, tag="C01"):
+    """trace_files: list of (ndjson path, ident)."""
+    traces = []
+    for tf, ident in trace_files:
+        try:
+            traces.extend(load_trace_file(tf, str(ident)))
+        except Exception as e:  # malformed trace = machinery problem
+            raise core.MachineryError(f"cannot load trace {tf}: {e}")
+    if not traces:
+        ctx.cov["traces_recorded"] = 0
+        return
+    verdicts, r = run_tlc(traces, tag=f"trace{tag}")
+    if r.violation:
+        ctx.model_violation("Trace_Preproc", r)
+    if len(verdicts) != len(traces):
+        raise core.MachineryError(f"Trace_Preproc judged {len(verdicts)} of {len(traces)} traces\n" + r.stdout[-1500:])
+    ctx.add_tlc("Trace_Preproc", r, note=f"{len(traces)} traces, {sum(len(t['ev']) for t in traces)} events")
+    ctx.cov["traces_validated_against_impl"] += len(traces)
+    ctx.cov["trace_events"] = ctx.cov.get("trace_events", 0) + sum(len(t["ev"]) for t in traces)
+    for v in verdicts:
+        if not v["ok"]:
+            t = traces[v["verdict"] - 1]
+            at = v["at"]
+            ctx.fail("V", ["trace"], f"trace-rejected:{v['clause']}",
+                     f"trace {v['id']} rejected at event {at}/{v['events']}: {v['clause']}; "
+                     f"event={t['ev'][at - 1] if at - 1 < len(t['ev']) else None}; "
+                     f"previous={t['ev'][max(0, at - 4):at - 1]}",
+                     case={"trace": t["id"], "files": t["files"], "events": t["ev"][:at + 2]})
+    if traces:
+        t0 = traces[0]
+        ctx.sample({"trace": t0["id"], "first_events": [{k: v for k, v in e.items() if v not in ("", 0, [], False, "none")} for e in t0["ev"][:12]]})
